@@ -110,6 +110,10 @@ Section Model.
                   (curvature_via_mapping P (map (map snd) TM) (map snd noise)) in
     match noreg with [] => F | _ => add_to_diag F noreg value end.
 
+  (* shape / domain predicates used as theorem hypotheses (the generators satisfy them) *)
+  Definition noise_pos (noise : list cx) : bool := forallb (fun n => ltb O zero (fst n) && ltb O zero (snd n)) noise.
+  Definition scales_ok (sy sx : T) : bool := negb (eqb O sy zero) && negb (eqb O sx zero).
+
   (* ---------------- mapped_reconstructed_visibilities_from ---------------- *)
   Definition recon_visibilities (TM : list (list cx)) (s : list T) : list cx :=
     map (fun row => fold_left (fun acc st =>
